@@ -401,7 +401,7 @@ func (r *Report) Finish() {
 			name := fmt.Sprintf("%s-%s.json", r.Property, hex.EncodeToString(h[:6]))
 			path := filepath.Join(outRoot, "replays", name)
 			data, _ := json.MarshalIndent(map[string]interface{}{
-				"property": r.Property, "key": key, "what": v.What, "case": v.Case, "stable": v.Stable,
+				"property": r.Property, "key": key, "what": v.What, "case": v.Case, "stable": v.Stable, "test": r.t.Name(),
 			}, "", " ")
 			if !replaying {
 				os.WriteFile(path, data, 0o644)
@@ -434,6 +434,10 @@ func (r *Report) Finish() {
 	if !replaying {
 		dir := filepath.Join(outRoot, "evidence")
 		os.MkdirAll(dir, 0o755)
+		cov["leg"] = r.t.Name()
+		if os.Getenv("VERIF_EVIDENCE_MERGE") == "1" {
+			mergeEvidence(filepath.Join(dir, r.Property+".json"), ev, cov)
+		}
 		data, err := json.MarshalIndent(ev, "", " ")
 		if err != nil {
 			r.t.Fatalf("INFRA: evidence does not marshal: %v", err)
@@ -451,6 +455,90 @@ func (r *Report) Finish() {
 		r.t.Errorf("property %s violated (%d unlisted case(s))", r.Property, unlisted)
 	} else if r.unstable > 0 {
 		r.t.Fatalf("INFRA: %d violation(s) did not reproduce in 5 re-executions and no reproducible violation was found", r.unstable)
+	}
+}
+
+// mergeEvidence folds the evidence already written by an earlier leg of the same
+// property (bin/check runs every INDEX line of a property in order) into ev/cov:
+// the legs enumerate different spaces, so counts add up, exhaustive is the
+// conjunction, samples are concatenated and each earlier leg's coverage is kept
+// under "legs".
+func mergeEvidence(path string, ev, cov map[string]interface{}) {
+	data, err := os.ReadFile(path)
+	if err != nil {
+		return
+	}
+	var old map[string]interface{}
+	if json.Unmarshal(data, &old) != nil || old["tier"] != ev["tier"] {
+		return
+	}
+	oc, _ := old["coverage"].(map[string]interface{})
+	if oc == nil {
+		return
+	}
+	num := func(m map[string]interface{}, k string) (float64, bool) {
+		switch v := m[k].(type) {
+		case float64:
+			return v, true
+		case int64:
+			return float64(v), true
+		case int:
+			return float64(v), true
+		}
+		return 0, false
+	}
+	for _, k := range []string{"evaluations", "distinct_nontrivial", "states", "transitions", "traces_validated_against_impl"} {
+		a, okA := num(oc, k)
+		b, okB := num(cov, k)
+		if okA || okB {
+			cov[k] = int64(a + b)
+		}
+	}
+	oe, _ := oc["exhaustive"].(bool)
+	ne, _ := cov["exhaustive"].(bool)
+	cov["exhaustive"] = oe && ne
+	if os, ok := oc["samples"].([]interface{}); ok {
+		ns, _ := cov["samples"].([]interface{})
+		all := append(os, ns...)
+		if len(all) > 10 {
+			all = all[:10]
+		}
+		cov["samples"] = all
+	}
+	cov["rule"] = fmt.Sprintf("%v || leg %v: %v", oc["rule"], cov["leg"], cov["rule"])
+	legs, _ := oc["legs"].([]interface{})
+	prev := map[string]interface{}{}
+	for k, v := range oc {
+		if k != "samples" && k != "legs" {
+			prev[k] = v
+		}
+	}
+	cov["legs"] = append(legs, prev)
+	if oa, ok := old["assumptions"].([]interface{}); ok {
+		na, _ := ev["assumptions"].([]string)
+		seen := map[string]bool{}
+		var merged []string
+		for _, a := range oa {
+			if s, ok := a.(string); ok && !seen[s] {
+				seen[s] = true
+				merged = append(merged, s)
+			}
+		}
+		for _, s := range na {
+			if !seen[s] {
+				seen[s] = true
+				merged = append(merged, s)
+			}
+		}
+		ev["assumptions"] = merged
+	}
+	if w, ok := num(old, "wall_s"); ok {
+		nw, _ := ev["wall_s"].(float64)
+		ev["wall_s"] = w + nw
+	}
+	if v, ok := num(old, "violations"); ok {
+		nv, _ := ev["violations"].(int)
+		ev["violations"] = int(v) + nv
 	}
 }
 
